@@ -208,6 +208,46 @@ func (C20) AfterCall(w *World, c *Call) {
 			if node == nil {
 				continue
 			}
+			// groups tested by has_group cases of the visited node, in the base arguments and in every translation
+			// a run in that language would use (same length as the base, as the router requires)
+			if rt, _ := node["router"].(gen.J); rt != nil {
+				cases, _ := rt["cases"].([]any)
+				for _, cx := range cases {
+					cs, _ := cx.(gen.J)
+					if cs == nil || cs["type"] != "has_group" {
+						continue
+					}
+					base, _ := cs["arguments"].([]any)
+					cu, _ := cs["uuid"].(string)
+					cands := map[string]string{}
+					if len(base) > 0 {
+						if u, _ := base[0].(string); u != "" {
+							cands[u] = "base"
+						}
+					}
+					if def != nil {
+						for _, lang := range gen.SortedKeys(def.Loc) {
+							ll, _ := def.Loc[lang].(gen.J)
+							it, _ := ll[cu].(gen.J)
+							tr, _ := it["arguments"].([]any)
+							if len(tr) == len(base) && len(tr) > 0 {
+								if u, _ := tr[0].(string); u != "" && cands[u] == "" {
+									cands[u] = "translation"
+								}
+							}
+						}
+					}
+					for _, gs := range w.Sc.Groups {
+						if where := cands[gs.UUID]; where != "" {
+							if !in.deps["group:"+gs.UUID] {
+								v("dependencies", "dependency-not-listed/has_group/"+where, fmt.Sprintf("a has_group case of node %s of %s tests the group %q (%s arguments) but the inspection lists no such dependency", r.Path()[i].NodeUUID(), r.Flow().Name(), gs.Name, where))
+								return
+							}
+							w.probe("c20_has_group_checked")
+						}
+					}
+				}
+			}
 			nb, _ := json.Marshal(node)
 			texts := []string{string(nb)}
 			if def != nil {
